@@ -202,14 +202,8 @@ def crash_req(G, ops, k):
     return {"mode": "crash", "ops": [R.op_serde(o) for o in ops], "crash_at": k, "ground": [R.entry_serde(e) for e in G]}
 
 
-def run_parallel(binpath, reqs, nproc=6):
-    chunks = [reqs[i::nproc] for i in range(nproc)]
-    with concurrent.futures.ThreadPoolExecutor(max_workers=nproc) as ex:
-        outs = list(ex.map(lambda c: harness.run_jsonl(binpath, c, (), 1500) if c else [], chunks))
-    res = [None] * len(reqs)
-    for i, o in enumerate(outs):
-        res[i::nproc] = o
-    return res
+def run_parallel(binpath, reqs, nproc=6, chunk=30):
+    return R.run_batched(binpath, reqs, chunk=chunk, nproc=nproc)
 
 
 REPORTED = set()
@@ -245,7 +239,7 @@ def check(run):
     if binpath is None:
         return
     rng = run.rng
-    nh = 22 if run.tier == "quick" else 400
+    nh = 22 if run.tier == "quick" else 150
     hists = corpus(rng) + [gen_history(rng, 5 + i % 5) for i in range(nh)]
     for G, ops in hists:
         assert wf(G, ops), "generator produced a non-conforming history"
